@@ -27,9 +27,10 @@ CONSTANTS QRows, RRows, \* sets of <<type class, shape>>: records carried by que
 VARIABLES tr, flows, last, n, mon, obs
 vars == <<tr, flows, last, n, mon, obs>>
 
-InList(t)   == t \in {"TXT", "CNAME", "NS", "PTR", "MX", "SOA", "SRV"}
-NamedT(t)   == t \in {"CNAME", "NS", "PTR", "MX", "SOA", "SRV"}      \* RFC: RDATA defined to contain names
-NamePos(t)  == IF t = "SOA" THEN 2 ELSE IF NamedT(t) THEN 1 ELSE 0
+InList(t)   == t \in {"TXT", "CNAME", "NS", "PTR", "MX", "SOA", "SRV", "HINFO", "MINFO", "RP", "AFSDB", "NAPTR"}
+\* RFC 1035 3.3 / RFC 3597 4 (+ KX, DNAME, never compressed by senders): RDATA defined to contain names
+NamedT(t)   == t \in {"CNAME", "NS", "PTR", "MX", "SOA", "SRV", "MINFO", "RP", "AFSDB", "NAPTR", "KX", "DNAME"}
+NamePos(t)  == IF t \in {"SOA", "MINFO", "RP"} THEN 2 ELSE IF NamedT(t) THEN 1 ELSE 0
 
 \* <<raw RDATA unchanged, layout reading unchanged>> after unpack + packed
 Decompress(t, s) ==
